@@ -1494,10 +1494,9 @@ void C2sStreamManager::onEnableFailed(const SmFailed &)
 void C2sStreamManager::onResumed(const SmResumed &resumed)
 {
     q->debug(u"Stream resumed"_s);
-    q->streamAckManager().setAcknowledgedSequenceNumber(resumed.h);
     m_streamResumed = true;
     m_enabled = true;
-    q->streamAckManager().enableStreamManagement(false);
+    q->streamAckManager().resumeStreamManagement(resumed.h);
 }
 
 void C2sStreamManager::onResumeFailed(const SmFailed &)
